@@ -81,6 +81,8 @@ PLANS = {
                      G("merge", 80, 3000, "TraceMerger", "TraceMerger.cfg", extra=["--rsched", "rand17", "--wsched", "rand19"]),
                      G("sorter", 80, 3000, "TraceSorter", "TraceSorter_C07.cfg", extra=["--rsched", "rand23", "--wsched", "rand29"]),
                      G("roundtrip_v1", 40, 600, "TraceCursor", "TraceCursor.cfg", extra=["--rsched", "rand31"])]),
+    "C12": dict(level="fault_enumeration", assumptions=TRUST + ["a fault is injected by the harness' own wrappers around sink, source, chunk storage, chunk creator and merge function; Interrupted is a retry request (C11), not a failure"],
+                gen=[G("faults", 48, 1200, "TraceFaults", "TraceFaults.cfg")]),
     "C13": dict(level="fault_enumeration", assumptions=TRUST,
                 mc=[MC("MCTrailer", "MCTrailer.cfg", workers=2)],
                 gen=[G("open", 18, 600, "TraceOpen", "TraceOpen.cfg")]),
